@@ -107,6 +107,7 @@ func Regexp(key string) *regexp.Regexp {
 var URLPolicies = map[string]func(*url.URL) bool{
 	"host-example.org":  func(u *url.URL) bool { return u.Host == "example.org" },
 	"host-example2.org": func(u *url.URL) bool { return u.Host == "example2.org" },
+	"host-not-e.x":      func(u *url.URL) bool { return u.Hostname() != "e.x" }, // a deny list
 	"no-query":          func(u *url.URL) bool { return u.RawQuery == "" },
 	"never":             func(u *url.URL) bool { return false },
 	"always":            func(u *url.URL) bool { return true },
